@@ -104,6 +104,32 @@ func runC18(c []string) string {
 			run = func() string { lo, hi, err := bl.DataRange(); return fmt.Sprintf("d:%d:%d:%s", lo, hi, blErr(err)) }
 		case 'c':
 			run = func() string { bl.Close(); return "c" }
+		case 'X': // X<seed>,<len>: ONE Write during which the file's owner closes the file as soon as the first chunk has been appended
+			a := strings.Split(op[1:], ",")
+			seed, _ := strconv.Atoi(a[0])
+			n, _ := strconv.Atoi(a[1])
+			run = func() string {
+				_, hi0, _ := bl.DataRange()
+				type wr struct {
+					k   int
+					err error
+				}
+				done := make(chan wr, 1)
+				go func() { k, err := bl.Write(payload(seed, n)); done <- wr{k, err} }()
+				deadline := time.Now().Add(5 * time.Second)
+				for time.Now().Before(deadline) {
+					if _, hi, _ := bl.DataRange(); hi > hi0 {
+						break
+					}
+					time.Sleep(20 * time.Microsecond)
+				}
+				if file != nil {
+					file.Close()
+				}
+				r := <-done
+				_, hi1, _ := bl.DataRange()
+				return fmt.Sprintf("X:%d:%d:%s", r.k, hi1-hi0, blErr(r.err))
+			}
 		case 'x': // the owner closes the underlying file: the store's own close will fail
 			run = func() string {
 				if file != nil {
